@@ -1,5 +1,6 @@
 import Driver.Loop
 import Midgard.Model.RinexNav
+import Midgard.Model.RinexNavDispatch
 import Midgard.Generated.RinexNavCols
 import Midgard.Spec.RinexNavFile
 
@@ -9,6 +10,9 @@ import Midgard.Spec.RinexNavFile
     c12 rinex2_nav   <ext-char> <hexfile>   (system from the last character of the file extension)
     c12 rinex212_nav <ext-char> <hexfile>
     c12 float <hex>                      `_float`
+    c12 rinex_nav <hexname> <hexfile>    the dispatcher `parsers.parse_file("rinex_nav", path)` (`parseNav`): a function of
+                                         the file name and the current content → {"parser":…,"cols":…} | RAISES
+    c12 sysname <2|212> <hexname>        `_get_system_from_file_extension` of the RINEX 2.x parsers → system | RAISES
 
     c12 model3 <tokens of an abstract file>   → {"wf":…,"thm":…,"text":<hex of render3 F>,"cols":…}: the abstract
                                          file of `Spec/RinexNavFile.lean` rendered by the spec writer, read by
@@ -102,15 +106,15 @@ end Wire
 def handle : List String → Option String
   | ["c12", "rinex3_nav", _, h] => do
     let t ← (decodeHex? h).map ofString
-    pure ((parseV3 Midgard.Generated.RinexNav.v3 t).elim "RAISES" showCols)
+    pure ((parseV3Text Midgard.Generated.RinexNav.v3 t).elim "RAISES" showCols)
   | ["c12", "rinex2_nav", x, h] => do
     let t ← (decodeHex? h).map ofString
     let s ← systemOfExt x
-    pure ((parseV2 Midgard.Generated.RinexNav.v2 s t).elim "RAISES" showCols)
+    pure ((parseV2Text Midgard.Generated.RinexNav.v2 s t).elim "RAISES" showCols)
   | ["c12", "rinex212_nav", x, h] => do
     let t ← (decodeHex? h).map ofString
     let s ← systemOfExt x
-    pure ((parseV2 Midgard.Generated.RinexNav.v212 s t).elim "RAISES" showCols)
+    pure ((parseV2Text Midgard.Generated.RinexNav.v212 s t).elim "RAISES" showCols)
   | "c12" :: "model3" :: toks => do
     let (f, rest) ← Wire.file toks
     if !rest.isEmpty then failure
@@ -133,6 +137,19 @@ def handle : List String → Option String
     let cols := acc.bind fun st => postV2 T "G" st
     pure ("{\"wf\":" ++ (if f.wf2 then "true" else "false") ++ ",\"thm\":" ++ (if thm then "true" else "false") ++
       ",\"text\":\"" ++ encodeHex (asString text) ++ "\",\"cols\":" ++ (cols.elim "\"RAISES\"" showCols) ++ "}")
+  | ["c12", "rinex_nav", n, h] => do
+    let name ← (decodeHex? n).map ofString
+    let t ← (decodeHex? h).map ofString
+    pure ((parseNavText Midgard.Generated.RinexNav.v3 Midgard.Generated.RinexNav.v2 Midgard.Generated.RinexNav.v212
+        Midgard.Generated.RinexNav.v2SysExt Midgard.Generated.RinexNav.v212SysExt name t).elim "RAISES"
+      fun (p, d) => "{\"parser\":\"" ++ p.name ++ "\",\"cols\":" ++ showCols d ++ "}")
+  | ["c12", "sysname", which, n] => do
+    let name ← (decodeHex? n).map ofString
+    let r ← match which with
+      | "2" => some (systemOfName2 Midgard.Generated.RinexNav.v2SysExt name)
+      | "212" => some (systemOfName212 Midgard.Generated.RinexNav.v212SysExt name)
+      | _ => Option.none
+    pure (r.elim "RAISES" fun s => "=" ++ s)
   | ["c12", "float", h] => do
     let t ← (decodeHex? h).map ofString
     pure ((floatField t).elim "RAISES" showRat)
